@@ -74,7 +74,9 @@ class Cfg:
         key_type=KT_PASSWORD,
         discover=False,
         priv_key_type=None,
+        same_bytes=False,
     ):
+        self.same_bytes = same_bytes  # the privacy key is given as the very octets of the auth key (but typed priv_key_type)
         self.version = version  # "v1" | "v2c" | "v3"
         self.community = community
         self.user = user
@@ -96,7 +98,7 @@ class Cfg:
             PRIV_NAMES[self.priv],
             self.key_type,
             ("p%d" % self.priv_key_type) if self.priv_key_type != self.key_type else "",
-            "-disc" if self.discover else "",
+            ("-disc" if self.discover else "") + ("-same" if self.same_bytes else ""),
         )
 
     def describe(self):
@@ -113,6 +115,8 @@ class Cfg:
                 auth_pass=self.auth_pass.hex(),
                 priv_pass=self.priv_pass.hex(),
             )
+            if self.same_bytes:
+                d["same_bytes"] = True
         else:
             d.update(community=self.community)
         return d
@@ -134,6 +138,7 @@ class Cfg:
             discover=d.get("discover", False),
             auth_pass=bytes.fromhex(d["auth_pass"]) if "auth_pass" in d else b"authpass12",
             priv_pass=bytes.fromhex(d["priv_pass"]) if "priv_pass" in d else b"privpass34",
+            same_bytes=d.get("same_bytes", False),
         )
 
     # ---- reference keys (agent side)
@@ -146,6 +151,14 @@ class Cfg:
         if not self.priv:
             return None
         # RFC 3414 A.2 / RFC 3826 1.2: privacy key localized with the *auth* digest
+        if self.same_bytes:
+            eid = engine_id or self.engine_id
+            mat = self._material(self.auth, self.auth_pass, eid, self.key_type)
+            if self.priv_key_type == KT_PASSWORD:
+                return refcrypto.localize(self.auth, master_key(self.auth, mat), eid)
+            if self.priv_key_type == KT_MASTER:
+                return refcrypto.localize(self.auth, mat, eid)
+            return mat
         return refcrypto.localize(self.auth, master_key(self.auth, self.priv_pass), engine_id or self.engine_id)
 
     # ---- material as handed to the library, per key type
@@ -165,6 +178,8 @@ class Cfg:
         a_key = self._material(self.auth, self.auth_pass, eid) if self.auth else b""
         p_alg = (self.priv | (self.priv_key_type << 6)) if self.priv else 0
         p_key = self._material(self.auth, self.priv_pass, eid, self.priv_key_type) if self.priv else b""
+        if self.priv and self.same_bytes:
+            p_key = a_key
         return eid, self.user, a_alg, a_key, p_alg, p_key
 
     def make_user(self):
@@ -181,7 +196,10 @@ class Cfg:
             ak = cls(self._material(self.auth, self.auth_pass, self.engine_id), key_type=kt)
         if self.priv:
             cls = {1: DesKey, 2: Aes128Key}[self.priv]
-            pk = cls(self._material(self.auth, self.priv_pass, self.engine_id, self.priv_key_type), key_type=pkt)
+            pmat = self._material(self.auth, self.priv_pass, self.engine_id, self.priv_key_type)
+            if self.same_bytes:
+                pmat = self._material(self.auth, self.auth_pass, self.engine_id)
+            pk = cls(pmat, key_type=pkt)
         return User(self.user, auth_key=ak, priv_key=pk)
 
     def make_raw_socket(self, port, timeout_ns=0):
@@ -555,6 +573,7 @@ def run_async(cfg, responder, client_coro_factory, timeout=3.0, loop_factory=Non
             kw = session_kwargs(cfg, port, timeout)
             kw.update(session_extra)
             session = SnmpSession(**kw)
+            session._verif_kw = kw  # lets a client coroutine open a second session to the same agent
             return await client_coro_factory(session)
         finally:
             loop.remove_reader(agent.fileno())
